@@ -54,7 +54,7 @@ pub fn sim_failure_violation(o: &mut Outcome, rep: &mcmc_sim::sim::SimReport, si
 // ---------------------------------------------------------------------------------------------
 struct ProgressStub;
 
-fn run_progress_stub<T: Cell + ndarray::LinalgScalar + PartialEq + Send + num_traits::ToPrimitive>(params: &Value, want_sample: bool) -> Outcome {
+fn run_progress_stub<T: Cell + ndarray::LinalgScalar + PartialEq + Send + Sync + num_traits::ToPrimitive>(params: &Value, want_sample: bool) -> Outcome {
     let mut o = Outcome::default();
     let nc = pus(params, "n_chains");
     let dim = pus(params, "dim");
@@ -138,6 +138,15 @@ fn run_progress_stub<T: Cell + ndarray::LinalgScalar + PartialEq + Send + num_tr
             let want = RunStats::from(arr.view());
             if !runstats_eq(&stats, &want) {
                 o.violate("diagnostics_differ", "ChainRunner::run_progress:stats", format!("returned {stats:?} but from the returned draws {want:?}"));
+            }
+            // "diagnostics computed from the returned draws" are a function of the draws: the same bits
+            // whatever the size of the thread pool the computation happens to run in
+            if let Ok(pool) = rayon::ThreadPoolBuilder::new().num_threads(1).build() {
+                let want1 = pool.install(|| RunStats::from(arr.view()));
+                o.count("probe_diagnostics_recomputed_in_a_one_thread_pool", 1);
+                if !runstats_eq(&want, &want1) {
+                    o.violate("diagnostics_pool_dependent", "RunStats::from:depends-on-thread-pool-size", format!("diagnostics of the same draws differ between the default pool and a one-thread pool: {want:?} vs {want1:?}"));
+                }
             }
             // bounded liveness after the last message: reporter exits within n_chains + 5 polls
             let after = rep.counters.get("sleeps_since_last_send").copied().unwrap_or(0);
